@@ -236,12 +236,14 @@ class CompileMonitor:
         self._ce = InternalCompiler.compile_expr
         mon = self
 
-        def c_or(self_, qc, expr, dest=None):
+        def c_or(self_, qc, expr, *a, **k):
             if len(expr.args) > 2:
                 mon.breaches.append(f"compile_or.pre.arity<=2[{len(expr.args)} arguments]")
-            return mon._or(self_, qc, expr, dest)
+            return mon._or(self_, qc, expr, *a, **k)
 
-        def c_expr(self_, qc, expr, dest=None, sym=None):
+        def c_expr(self_, qc, expr, *a, **k):
+            # the wrappers pass every argument through unchanged (the signatures may evolve); `dest` is read if present
+            dest = k.get("dest", a[0] if a else None)
             mon.compiler = self_
             try:
                 s0, mask = mon.tables(qc)
@@ -254,7 +256,7 @@ class CompileMonitor:
                 old_dest = s0[dest] if dest is not None and dest < len(s0) else (0 if dest is not None else None)
             except Exception:  # noqa - quantum gates, unmapped symbols: no contract
                 want = None
-            ret = mon._ce(self_, qc, expr, dest, sym)
+            ret = mon._ce(self_, qc, expr, *a, **k)
             if want is not None:
                 try:
                     s1, mask = mon.tables(qc)
@@ -277,13 +279,13 @@ class CompileMonitor:
         self._qe = QCircuitEnhanced
         self._unc, self._rid, self._ua = QCircuitEnhanced.uncompute, QCircuitEnhanced.remove_identities, QCircuitEnhanced.uncompute_all
 
-        def unc(qc, to_mark=[]):
+        def unc(qc, *a, **k):
             mon.check_expqmap(qc)
             try:
                 s0, _ = mon.tables(qc)
             except Exception:  # noqa
                 s0 = None
-            ret = mon._unc(qc, to_mark)
+            ret = mon._unc(qc, *a, **k)
             if s0 is not None:
                 try:
                     s1, _ = mon.tables(qc)
@@ -296,12 +298,12 @@ class CompileMonitor:
                     pass
             return ret
 
-        def rid(qc):
+        def rid(qc, *a, **k):
             try:
                 s0, _ = mon.tables(qc)
             except Exception:  # noqa
                 s0 = None
-            ret = mon._rid(qc)
+            ret = mon._rid(qc, *a, **k)
             if s0 is not None:
                 try:
                     s1, _ = mon.tables(qc)
@@ -311,12 +313,13 @@ class CompileMonitor:
                     pass
             return ret
 
-        def ua(qc, keep=[]):
+        def ua(qc, *a, **k):
+            keep = k.get("keep", a[0] if a else [])
             try:
                 s0, _ = mon.tables(qc)
             except Exception:  # noqa
                 s0 = None
-            ret = mon._ua(qc, keep)
+            ret = mon._ua(qc, *a, **k)
             if s0 is not None:
                 try:
                     s1, _ = mon.tables(qc)
@@ -336,6 +339,14 @@ class CompileMonitor:
 
 
 def job(a):
+    try:
+        with bounded.time_budget(bounded.INSTANCE_BUDGET_S):
+            return _job(a)
+    except bounded.Budget:
+        return []       # instance exceeded its time budget: skipped, not a verdict
+
+
+def _job(a):
     kind, inst, profile, prop = a
     t0 = time.time()
     want = {"C02", "C03", "C06"} if prop == "ALL" else {prop}
@@ -430,6 +441,11 @@ def run_for(prop, tier, only=None):
     rs = run_pool(job, all_jobs(tier, prop), chunksize=2)
     rs = [r for r in rs if r.get("prop", prop) == prop or r["status"] == common.ENGINE]
     rep.add(rs)
+    deciding = [r for r in rs if r.get("strength") == "bounded"]
+    floor = {"C02": 600, "C03": 300, "C06": 150}[prop]
+    if len(deciding) < floor:
+        rep.add([res(f"{prop}.vacuity.instances-evaluated", common.ENGINE, backend="python",
+                     detail=f"only {len(deciding)} instances reached the postcondition (at least {floor} expected): the run decides nothing - e.g. every compilation raised")])
     rep.under_contract(InternalCompiler.compile, InternalCompiler.compile_expr, InternalCompiler.compile_and, InternalCompiler.compile_or,
                        InternalCompiler.compile_not, InternalCompiler.compile_xor, InternalCompiler.compile_symbol, to_quantum,
                        QCircuitEnhanced.uncompute, QCircuitEnhanced.uncompute_all, QCircuitEnhanced.remove_identities, QCircuitEnhanced.get_free_ancilla)
